@@ -1354,7 +1354,7 @@ func (r *Runner) genCreate(t *Tab, f *Fault) *Stmt {
 	case "dupas":
 		cols = []string{"id", "id"}
 	}
-	s.SQL = fmt.Sprintf("CREATE TABLE %s (%s) AS SELECT %s FROM %s WHERE %s", name, strings.Join(cols, ", "), sqls(exprs), t.Name, cond.SQL)
+	s.SQL = fmt.Sprintf("CREATE TABLE `%s.csv` (%s) AS SELECT %s FROM %s WHERE %s", name, strings.Join(cols, ", "), sqls(exprs), t.Name, cond.SQL)
 	s.Op = fmt.Sprintf("createas %s %d %s %s %d %s %s", name, len(cols), strings.Join(cols, " "), t.Name, len(exprs), toks(exprs), cond.Tok)
 	s.NewTable = name
 	s.After = func() {
